@@ -729,11 +729,44 @@ func (p *c19) Run(tier string, seed int64, idx int) core.CaseResult {
 			}
 		}
 	}
+	// ---- a leaf of type empty has one value: the same member with two or three nulls is no document of the schema
+	for i, e := range encodings {
+		enc := encOf(i)
+		if enc == encoding.XML {
+			continue
+		}
+		doc := string(e)
+		for _, loc := range c19EmptyRe.FindAllStringSubmatchIndex(doc, -1) {
+			name := doc[loc[2]:loc[3]]
+			if j := strings.Index(name, ":"); j >= 0 {
+				name = name[j+1:]
+			}
+			lt := leafTypes[name]
+			if lt == nil || lt.rtype == nil || lt.kw != "leaf" || lt.rtype.Kind != "empty" {
+				continue
+			}
+			for _, tk := range []string{"[null,null]", "[null, null, null]"} {
+				mut := doc[:loc[4]] + tk + doc[loc[5]:]
+				res.Ev("empty_leaf_cardinality_substitutions", 1)
+				tree, err, pmsg, stack := c19Decode(ms, enc, []byte(mut), true)
+				desc := fmt.Sprintf("%s---- leaf %s of type empty: [null] replaced by %s (%s decoder)\n%s", schemaText, name, tk, encNames[enc], mut)
+				if pmsg != "" {
+					res.Fail("C19/decode-panic/"+encNames[enc]+"/"+core.TopRepoFrame(stack), desc, pmsg)
+					continue
+				}
+				if err == nil && tree != nil {
+					res.Fail("C19/accepted-but-invalid/"+encNames[enc]+"/empty-leaf-with-several-values", desc, "the document decoded:\n"+walkData(tree).str())
+				}
+			}
+		}
+	}
 	if idx%71 == 0 && len(encodings) > 0 {
 		res.Sample = map[string]interface{}{"trees": len(c.trees), "rfc7951": core.Trunc(string(encodings[0]), 300)}
 	}
 	return res
 }
+
+var c19EmptyRe = regexp.MustCompile(`"([A-Za-z0-9_.:-]+)":\s*(\[\s*null\s*\])`)
 
 func c19DiffClass(want, got string) string {
 	d := firstDiff(want, got)
